@@ -114,6 +114,15 @@ S = [
 def scenarios():
     return [dict(name=n, case=[FUEL, b, [SETUP, RUN]]) for n, b in S]
 
+# F9(e): the order "handlers, then mark the waiting ticket" is observable only when an exception leaves _run_handlers
+# between the two, i.e. when no level is left: handler 2 (in a nested loop opened from outside run()) closes its level
+# and waits for class 1; the class-1 signal's handler 0 closes the last level, handler 1 raises -> the except clause's
+# enqueue_signal(ExceptionSignal) raises IndexError -> the mark is skipped -> the wait never ends.  With the mark
+# made first (as MainLoop does) the wait would return.
+MARK_ORDER = dict(key="glib-mark-after-handlers", name="e",
+                  case=[FUEL, [[CLOSE], [RAISE], [CLOSE, P(1), M(1)]],
+                        [[0, R(1, 0), R(1, 1), R(2, 2), E(1)], [0, N(2)], RUN]])
+
 
 def cases():
     return [dict(key=k, name=n, case=[FUEL, b, a]) for k, n, b, a in W]
@@ -166,6 +175,11 @@ def coq_defs():
         for act in a:
             acts.append("ARun" if act[0] == 1 else "ACmds [%s]" % "; ".join(coq_cmd(c) for c in act[1:]))
         out.append("Definition w_%s_acts : list action := [%s]." % (n, "; ".join(acts)))
+    out.append("(* %s *)" % MARK_ORDER["key"])
+    out.append("Definition w_e_bodies : list (list cmd) := [%s]." % (
+        "; ".join("[%s]" % "; ".join(coq_cmd(c) for c in body) for body in MARK_ORDER["case"][1])))
+    out.append("Definition w_e_acts : list action := [%s]." % "; ".join(
+        "ARun" if act[0] == 1 else "ACmds [%s]" % "; ".join(coq_cmd(c) for c in act[1:]) for act in MARK_ORDER["case"][2]))
     for n, b in S:
         out.append("(* scheduler scenario: %s *)" % n)
         out.append("Definition s_%s_bodies : list (list cmd) := [%s]." % (
@@ -178,5 +192,5 @@ if __name__ == "__main__":
     if "--coq" in sys.argv:
         print("\n".join(coq_defs()))
     else:
-        for w in cases() + scenarios():
+        for w in cases() + [MARK_ORDER] + scenarios():
             print(json.dumps(w))
